@@ -116,6 +116,11 @@ def r1_r4(prog, rep):
         chain_obligations(rep, "R1", option, ctx, model.call, prog.module(EQ).rel + " (Equilibrium helper chain)")
         if model.ex.clipped:
             rep.assume("f_R/f_Z clip their arguments to the data domain; identities are for points inside it")
+        if option == "spline":
+            # ... which is only true if each clamp uses the bounds of the axis its coordinate runs along
+            for c, fname, ok, detail in common.clip_bound_sites(model.builder):
+                rep.ob("R4", "%s: clamp bound of `%s` is the min/max of the grid axis that coordinate runs along" % (fname, model.builder.module.code(c.args[0]) if c.args else "?"), ok,
+                       model.builder.site(c), detail, key="clip/%s/%s" % (fname, model.builder.module.code(c.args[0]) if c.args else "?"))
     rep.ob("R4", "both arms define the same function set", names["spline"] == names["dct"], "", str(names), key="arms/same-names")
 
 
